@@ -249,6 +249,18 @@ func gitExec(c *Ctx, op string) {
 		}
 		sort.Strings(lines)
 		res = strings.Join(lines, ",")
+		// a filter's mtime rule names every entry: directories too (the conjured root, trees, gitlink directories)
+		if k := strings.Index(fstr, "mtime=@"); k >= 0 {
+			var t int64
+			fmt.Sscan(strings.SplitN(fstr[k+7:], ",", 2)[0], &t)
+			for _, e := range sn {
+				if e.Sec != t {
+					c.PropFail("git-filter-ignored", fmt.Sprintf("unpacked with %s, the entry %q (%c) carries mtime %d", fstr, e.Name, e.Kind, e.Sec), op)
+					break
+				}
+			}
+			c.H("git-mtime-filter-checked")
+		}
 		// ---- normalised ownership and mtimes are a function of the commit and the filter alone: after another unpack
 		// (of any commit) with explicit owners in this same process, the same unpack gives the same listing
 		{
